@@ -1250,6 +1250,27 @@ class DecoderLayout:
             else:
                 self.locals[dest[1]] = {"kind": "bytelist", "off": c[1], "items": items, "node": s}
             return
+        if isinstance(s, ast.If) and not s.orelse and len(s.body) == 1 and isinstance(s.body[0], ast.Raise):
+            # a decoder that refuses its input: read only as a test of how much is left - `X >= len(rest)` / `len(rest) < X` ... - recorded as
+            # "refuses when len(rest) <= T" and compared with the shortest body the encoder writes
+            t = s.test
+            rej = None
+            if isinstance(t, ast.Compare) and len(t.ops) == 1:
+                a_, b_, op = t.left, t.comparators[0], type(t.ops[0]).__name__
+
+                def is_len(x):
+                    return isinstance(x, ast.Call) and isinstance(x.func, ast.Name) and x.func.id == "len" and len(x.args) == 1 \
+                        and isinstance(x.args[0], ast.Name) and x.args[0].id in self.cursors
+                if is_len(b_) and not is_len(a_) and op in ("GtE", "Gt"):
+                    rej = (b_.args[0].id, a_, 0 if op == "GtE" else -1)
+                elif is_len(a_) and not is_len(b_) and op in ("LtE", "Lt"):
+                    rej = (a_.args[0].id, b_, 0 if op == "LtE" else -1)
+            if rej is None:
+                raise AnalysisError("decoder of %s: raise under a test that is not a length test (%s)" % (self.cls.name, U(t)))
+            T = self.lin(rej[1]).add(rej[2])
+            self.rejects = getattr(self, "rejects", [])
+            self.rejects.append({"cursor": self.cursors[rej[0]], "T": T, "node": s, "text": U(t)})
+            return
         if isinstance(s, ast.If):
             g = U(s.test)
             desc = self._cond_desc(s.test)
